@@ -46,16 +46,17 @@ EscChar(c) == IF c \in Special THEN <<Bar, c>>
               ELSE <<c>>
 Esc(s) == Cat([i \in 1..Len(s) |-> EscChar(s[i])])
 
+\* The reader of a value: one pass, remembering whether the previous byte was the escape bar.
 UnescChar(c) == IF c \in Special THEN c ELSE IF c = 110 THEN 10 ELSE IF c = 114 THEN 13 ELSE Bad
-RECURSIVE Unesc(_)
-Unesc(w) == IF Len(w) = 0 THEN <<>>
-            ELSE IF w[1] = Bar
-                 THEN IF Len(w) = 1 THEN <<Bad>>
-                      ELSE <<UnescChar(w[2])>> \o Unesc(SubSeq(w, 3, Len(w)))
-            ELSE IF w[1] \in Special \cup {10, 13} THEN <<Bad>> \o Unesc(Tail(w))   \* a raw special ends or breaks the message
-            ELSE <<w[1]>> \o Unesc(Tail(w))
+UnescStep(st, c) ==
+    IF st.esc THEN [o |-> Append(st.o, UnescChar(c)), esc |-> FALSE]           \* unknown escape: undecodable
+    ELSE IF c = Bar THEN [st EXCEPT !.esc = TRUE]
+    ELSE IF c \in Special \cup {10, 13} THEN [st EXCEPT !.o = Append(@, Bad)]   \* a raw special ends or breaks the message
+    ELSE [st EXCEPT !.o = Append(@, c)]
+Unesc(w) == LET r == Fold(UnescStep, [o |-> <<>>, esc |-> FALSE], w) IN
+            IF r.esc THEN Append(r.o, Bad) ELSE r.o                            \* dangling bar
 \* a wire value is safe when it decodes completely: no raw ' | [ ] or line break, no dangling or unknown escape
-WireSafe(w) == Bad \notin Range(Unesc(w))
+WireSafe(w) == Bad \notin BytesOf(Unesc(w))
 
 \* The escaping theorem the reporter relies on (checked by TLC over all strings up to a length)
 EscapeCorrect(A, n) == \A s \in StrUpTo(A, n) : Unesc(Esc(s)) = s /\ WireSafe(Esc(s))
@@ -92,10 +93,9 @@ Feed(st, m) ==
         [] m.kind \in {"testIgnored", "testFailed"} ->
                                            IF Len(s) = 2 /\ s[2] = Open("test", n) THEN st ELSE [st EXCEPT !.ok = FALSE]
         [] OTHER -> [st EXCEPT !.ok = FALSE]
-ScanOf(o) == LET F[i \in 0..Len(o)] == IF i = 0 THEN [stack |-> <<>>, ok |-> TRUE] ELSE Feed(F[i - 1], o[i]) IN F[Len(o)]
+ScanOf(o) == Fold(Feed, [stack |-> <<>>, ok |-> TRUE], o)
 
-RECURSIVE FeedAll(_, _)
-FeedAll(st, ms) == IF Len(ms) = 0 THEN st ELSE FeedAll(Feed(st, Head(ms)), Tail(ms))
+FeedAll(st, ms) == Fold(Feed, st, ms)
 \* writing messages: they are appended to the stream and the reader's view follows
 Emit(ms) == out' = out \o ms /\ scan' = FeedAll(scan, ms)
 Silent == UNCHANGED <<out, scan>>
